@@ -204,4 +204,35 @@ theorem assemble_eq (texs : List Tex) (raws : List Raw) (want : Tex → Texture)
     have h2 : raws[i]? = none := by simp; omega
     simp [hi, h1, h2]
 
+macro "u8arith" : tactic => `(tactic| (simp only [UInt8.le_iff_toNat_le, UInt8.lt_iff_toNat_lt, UInt8.reduceToNat, ← UInt8.toNat_inj] at * <;> omega))
+
+/-- The specification's well-formedness check implies the model's (`encoding_rs`) validity check. -/
+theorem utf8_spec_valid : ∀ (b : Bytes), Spec.Tex.utf8 b = true → utf8Valid b = true := by
+  intro b
+  fun_induction Spec.Tex.utf8 b
+  case case1 => intro _; rfl
+  case case2 a rest ha ih =>
+    intro h
+    have : a < 0x80 := by u8arith
+    have hv := ih h
+    unfold utf8Valid
+    simp only [this, if_true]
+    exact hv
+  all_goals (
+    intro h
+    try simp only [Bool.and_eq_true, decide_eq_true_eq, beq_iff_eq, cont, Bool.false_eq_true,
+      not_and] at *
+    try rw [utf8Valid]
+    try simp only [isCont, Bool.and_eq_true, Bool.or_eq_true, decide_eq_true_eq, beq_iff_eq])
+  all_goals (repeat' split)
+  all_goals (try (exfalso; u8arith))
+  all_goals (try simp_all)
+  all_goals (try u8arith)
+
+
+/-- A UTF-8 name stored verbatim is what the reader reports. -/
+theorem utf8Name_decodes {t : Tex} (h : utf8Name t = true) : decodeName .utf8 t.stored = some t.name := by
+  simp only [utf8Name, Bool.and_eq_true, beq_iff_eq] at h
+  simp [decodeName, h.1, utf8_spec_valid _ h.2]
+
 end Mila.Containers
